@@ -169,6 +169,7 @@ def run(res, tier, seed, search=False, have_drv=True):
                 res.broken.append("correspondence: real ping source and PingProto disagree on schedule `%s`: impl `%s` vs model `%s` (replay %s)"
                                   % (" | ".join(c[1:-1]), first[0], first[1], os.path.join(d, "case.sched")))
     # uncontrolled runs: the handles' last operations issued at the same moment from several threads
+    single_threaded(res, tier, seed, have_drv)
     for c, l, v in run_races(150 if tier == "quick" else 2000):
         res.cov["evaluations"] += 1
         if v:
@@ -209,6 +210,59 @@ def spec_race(case, line):
     if cbs > pings:
         return "%d callbacks for %d pings" % (cbs, pings)
     return None
+
+
+def single_threaded(res, tier, seed, have_drv):
+    """C03's single-threaded clause: histories of ping / clone / drop / disable / enable / update / remove / dispatch over
+    ping sources only, on the real loop and on the loop model; the implementation traces are judged by Spec.Core's
+    clauses that speak of ping sources: a ping that has returned is followed by a callback while the source is inserted
+    and enabled (its C02 clause), no callback without a ping or for a disabled / removed source (C01, C06, C07)."""
+    import glob
+    import coreprop
+    import coresuite
+    import gen_core
+    corpus = []
+    for f in sorted(glob.glob(os.path.join(C.ROOT, "corpus", "core", "c03_*.ops"))):
+        corpus.append([l.rstrip("\n") for l in open(f) if l.strip()])
+    cases, _ = gen_core.generate(seed * 1000 + 77, 250 if tier == "quick" else 6000, "pingonly", prefix="c03st")
+    cases = corpus + cases
+    impl, model, inconclusive = coresuite.run_cases(cases, want_model=have_drv)
+    idxs = [i for i in range(len(cases)) if i not in set(inconclusive)]
+    verdicts = dict(zip(idxs, coreprop.monitor([impl[i] for i in idxs]))) if have_drv else {}
+    bad, diff = [], []
+    for i in idxs:
+        msgs = [m for pid in ("C02", "C01", "C06", "C07") for m in coreprop.verdict_for(verdicts.get(i, ""), pid)]
+        msgs = [m for m in msgs if not any(m.startswith(tg) for tg in coreprop.TAGGED_FINDINGS)]
+        if msgs:
+            bad.append((i, msgs))
+        if model is not None and coreprop.project(impl[i], "C02") != coreprop.project(model[i], "C02"):
+            diff.append(i)
+    res.cov["single_threaded_histories"] = len(idxs)
+    res.cov["evaluations"] = res.cov.get("evaluations", 0) + len(idxs)
+    for i, msgs in bad[:2]:
+        def pred(c):
+            it, _, inc = coreprop.run_one(c, want_model=False)
+            v = coreprop.monitor([it])[0]
+            return (not inc) and any(coreprop.verdict_for(v, pid) for pid in ("C02", "C01", "C06", "C07"))
+        small = coreprop.shrink(cases[i], pred)
+        it, _, _ = coreprop.run_one(small, want_model=False)
+        v = coreprop.monitor([it])[0]
+        m2 = [m for pid in ("C02", "C01", "C06", "C07") for m in coreprop.verdict_for(v, pid)]
+        if not m2:
+            small, it, m2 = cases[i], impl[i], msgs
+        res.cov["impl_monitor_failures"] += 1
+        d = C.write_replay(res.pid, {"case.ops": "\n".join(small) + "\n", "impl.obs": "\n".join(it) + "\n",
+                                     "verdict.txt": "Spec.Core on the implementation trace (ping sources only):\n" + "\n".join(m2) + "\n"})
+        res.violations.append(("C03, single-threaded history: %s   [history: %s]" % (m2[0], " ; ".join(small[1:-1])[:500]),
+                               os.path.join(d, "case.ops")))
+    if diff and not bad and not res.broken:
+        i = diff[0]
+        fd = coresuite.first_diff(coreprop.project(impl[i], "C02"), coreprop.project(model[i], "C02"))
+        d = C.write_replay(res.pid, {"case.ops": "\n".join(cases[i]) + "\n", "impl.obs": "\n".join(impl[i]) + "\n",
+                                     "model.obs": "\n".join(model[i]) + "\n"}, tag="diff")
+        res.broken.append("correspondence (single-threaded ping histories): the real loop and the loop model disagree in %d of %d histories, "
+                          "first on `%s`: impl `%s` vs model `%s` (replay %s)" % (len(diff), len(idxs), " ; ".join(cases[i][1:-1])[:300],
+                                                                                   fd[1], fd[2], os.path.join(d, "case.ops")))
 
 
 def run_races(rounds):
